@@ -311,6 +311,27 @@ def run(index, rep, tier):
         rep.check(ok, "R01.11", icw.qualname, "other mask compared without bringing it to this tree's normalisation", fn_where(icw, c), "is_compatible_with re-normalises the other mask for unrooted bipartitions",
                   "Bipartition.is_compatible_with passes the other split mask to is_compatible_bitmasks as it is: that test knows three of the four cells (m1&m2, m1&~m2, ~m1&m2) and is exact only when both masks put the same taxon on the 0 side; a query built over the whole namespace (fill = all taxa) is normalised on a taxon that may not be on the tree, so a split that is literally in the tree - {b,c} against ((b,c),(d,e),f) in a namespace a..f - is declared incompatible")
 
+    # ---- R01.12
+    with rep.section("R01.12"):
+        rep.rule("R01.12", "a bipartition compiled at construction knows its rooting: every Bipartition(...) construction that passes a mask and does not switch compilation off also passes is_rooted (without it the split mask is normalised as for an unrooted tree, i.e. complemented when the first taxon is in the clade)")
+        ncon = 0
+        for f in list(index.functions.values()):
+            if not f.module.name.startswith("dendropy.") or ".legacy" in f.module.name:
+                continue
+            for c in calls_in(f.node, nested=True):
+                if call_name(c) != "Bipartition" or c.args:
+                    continue
+                kws = {k.arg: k.value for k in c.keywords if k.arg}
+                if not ({"leafset_bitmask", "bitmask"} & set(kws)):
+                    continue
+                cb = kws.get("compile_bipartition")
+                if cb is not None and isinstance(cb, ast.Constant) and cb.value is False:
+                    continue
+                ncon += 1
+                rep.check("is_rooted" in kws, "R01.12", f.qualname, "Bipartition compiled without is_rooted", fn_where(f, c), "%s: Bipartition(...) is told the rooting" % f.qualname,
+                          "%s constructs and compiles `%s` without is_rooted: the new bipartition's rooting is None, so its split bitmask is normalised as on an unrooted tree - on a rooted tree every clade that contains the namespace's first taxon gets the complement of its leaf set as split, and a lookup of that split in a rooted split distribution (node support, maximum-credibility scores) finds the wrong entry or nothing" % (f.qualname, norm(c)[:70]))
+        rep.floor("R01.12", "compiling Bipartition constructions", 3, ncon)
+
     # ---- R01.9
     with rep.section("R01.9"):
         rep.rule("R01.9", "bit-level compatibility has the three-cell normal form: is_compatible_bitmasks answers True exactly when one of m1&m2, m1&~m2, ~m1&m2 is empty (within the fill mask) and never on ~m1&~m2; from_bipartition_encoding hands SPLIT masks to from_split_bitmasks")
